@@ -7,7 +7,7 @@
 //	phase 1  every 1-token deviation of every seed: deletion, duplication, swap with the next token,
 //	         replacement by each of the replacement tokens below (token boundaries come from the real
 //	         tm lexer; comments count as white space);
-//	phase 2  every byte string of length <= 3 over 16 bytes inserted in 4 minimal contexts;
+//	phase 2  every byte string of length <= 3 over 18 bytes inserted in 5 minimal contexts;
 //	phase 3  (thorough) every combination of two 1-token deviations at different positions of every
 //	         seed shorter than 60 tokens.
 //
@@ -149,13 +149,16 @@ var replacements = []string{
 }
 
 // Bytes for phase 2.
-var phase2Bytes = []byte{'a', '1', ' ', '\n', ':', ';', '/', '\'', '"', '{', '}', '%', '<', '\\', 0xc3, 0x00}
+var phase2Bytes = []byte{'a', '1', ' ', '\n', ':', ';', '/', '\'', '"', '{', '}', '(', '[', '%', '<', '\\', 0xc3, 0x00}
 
 var phase2Contexts = []struct{ name, before, after string }{
 	{"prepend", "", "language l(go);\n:: lexer\na: /a/\n"},
 	{"header", "language l(go);\n", ""},
 	{"lexer", "language l(go);\n:: lexer\n", ""},
 	{"parser", "language l(go);\n:: lexer\na: /a/\n:: parser\ninput: a ", ""},
+	// the bytes are the body of a regular expression that ends the text: exercises the mapping of
+	// regexp error positions (compiler/lexer.go:parsePattern) right at the end of the input
+	{"regexp", "language l(go);\n:: lexer\na: /", "/"},
 }
 
 type edit struct {
@@ -389,8 +392,12 @@ func shortFunc(fn string) string {
 }
 
 // stackSite returns the innermost textmapper function in a Go stack dump ("pkg.Func" or
-// "pkg.(*T).Method"), or "".
+// "pkg.(*T).Method"), or "". When that function belongs to a helper package (status, util/...), the
+// calling textmapper function is appended ("status.Errorf<syntax.Expand") so that different crash
+// sites stay distinct.
 func stackSite(stack string) string {
+	var frames []string
+	var helper []bool
 	for _, l := range strings.Split(stack, "\n") {
 		if strings.HasPrefix(l, "\t") || !strings.Contains(l, "inspirer/textmapper/") {
 			continue
@@ -399,9 +406,14 @@ func stackSite(stack string) string {
 		if j := strings.LastIndex(l, "("); j > 0 && strings.HasSuffix(strings.TrimSpace(l), ")") {
 			l = l[:j]
 		}
-		return shortFunc(strings.TrimSpace(l))
+		l = strings.TrimSpace(l)
+		frames = append(frames, shortFunc(l))
+		helper = append(helper, strings.Contains(l, "/textmapper/status.") || strings.Contains(l, "/textmapper/util/"))
+		if !helper[len(helper)-1] || len(frames) >= 4 {
+			break
+		}
 	}
-	return ""
+	return strings.Join(frames, "<")
 }
 
 type finding struct {
@@ -785,7 +797,7 @@ func run(c *core.Ctx) {
 	seeds := loadSeeds()
 	quick := c.Quick()
 	c.Rule("seed grammars x {0, 1 (thorough: 2 for seeds < 60 tokens)} token deviations (delete, duplicate, swap-with-next, replace by one of " +
-		strconv.Itoa(len(replacements)) + " tm tokens; no-op edits skipped; quick: seeds > " + strconv.Itoa(quickBigSeed) + " tokens use 8 replacement tokens) + all byte strings <= 3 over 16 bytes in 4 contexts; " +
+		strconv.Itoa(len(replacements)) + " tm tokens; no-op edits skipped; quick: seeds > " + strconv.Itoa(quickBigSeed) + " tokens use 8 replacement tokens) + all byte strings <= 3 over 18 bytes in 5 contexts; " +
 		"every case through compiler.Compile (CheckOnly off; also on when the text mentions optimizeTables). " +
 		"Non-trivial = the text passes the tm parser, i.e. reaches the semantic phases; distinct by FNV-64 of the text")
 	c.Assume("log.Fatal* is observed by a log output hook that panics with the caller's identity (the process would exit right after writing the message); everything else that kills or stalls a worker is detected by the shard protocol (45 s without progress on a single case = hang)")
